@@ -249,7 +249,7 @@ func (j *JoinGame) decodeLegacy(c *proto.PacketContext, rd io.Reader) (err error
 	if c.Protocol.GreaterEqual(version.Minecraft_1_9_1) {
 		r.Int(&j.Dimension)
 	} else {
-		j.Dimension = int(util.PReadByteVal(rd))
+		j.Dimension = int(int8(util.PReadByteVal(rd))) // signed byte, the Nether is -1
 	}
 	if c.Protocol.LowerEqual(version.Minecraft_1_13_2) {
 		j.Difficulty = int16(util.PReadByteVal(rd))
@@ -296,7 +296,7 @@ func (j *JoinGame) decode116Up(c *proto.PacketContext, rd io.Reader) (err error)
 		j.Hardcore = (j.Gamemode & 0x08) != 0
 		j.Gamemode &= ^0x08 // bitwise complement
 	}
-	j.PreviousGamemode = int16(util.PReadByteVal(rd))
+	j.PreviousGamemode = int16(int8(util.PReadByteVal(rd))) // signed byte, -1 means none
 
 	r.Strings(&j.LevelNames)
 	j.Registry, err = util.ReadCompoundTag(rd, c.Protocol)
@@ -378,7 +378,7 @@ func (j *JoinGame) decode1202Up(c *proto.PacketContext, rd io.Reader) error {
 	r.Int64(&j.PartialHashedSeed)
 
 	j.Gamemode = int16(util.PReadByteVal(rd))
-	j.PreviousGamemode = int16(util.PReadByteVal(rd))
+	j.PreviousGamemode = int16(int8(util.PReadByteVal(rd))) // signed byte, -1 means none
 
 	isDebug := r.Ok()
 	isFlat := r.Ok()
